@@ -64,4 +64,52 @@ structure VI where
   seqLen : Int
   deriving DecidableEq, Repr, Inhabited
 
+/-! ### Loop fragment (tools/translate.py, kernel specs with `loops=True`) -/
+
+/-- A parent-less CompoundInterval as the block loops see it: `blocks` = `self._single_intervals` = `self.blocks`
+    in the STORED order (ascending, as `_sort_starts_ends` leaves `_starts`/`_ends`), every block carrying the
+    location's strand.  The translator checks on every run that the class still defines these attributes that way
+    (`ci_view_guards`). -/
+structure CI where
+  blocks : List SI
+  strand : Strand
+  deriving DecidableEq, Repr, Inhabited
+
+/-- `self._starts` -/
+def CI.starts (c : CI) : List Int := c.blocks.map (fun b => b.start)
+/-- `self._ends` -/
+def CI.ends (c : CI) : List Int := c.blocks.map (fun b => b.«end»)
+
+/-- `length = 0; for start, end in zip(self._starts, self._ends): length += end - start` -/
+def sumLens : List SI → Int
+  | [] => 0
+  | b :: bs => (b.«end» - b.start) + sumLens bs
+
+/-- `len(self)` = `self.length` of a CompoundInterval -/
+def CI.length (c : CI) : Int := sumLens c.blocks
+
+/-- How a translated `for` loop ends: `ret r` = a `return r` was executed in the body;
+    `done s` = `break`, or the iterable was exhausted, with the loop's mutable locals `s`. -/
+inductive LoopOut (ρ σ : Type) where
+  | ret (r : ρ)
+  | done (s : σ)
+  deriving Repr
+
+/-- `any(f(x) for x in xs)` where `f` may raise: stops at the first `True`, an exception raised before that propagates -/
+def pyAny {α : Type} (f : α → PyR Bool) : List α → PyR Bool
+  | [] => .ok false
+  | x :: xs =>
+    match f x with
+    | .error e => .error e
+    | .ok true => .ok true
+    | .ok false => pyAny f xs
+
+/-- result of the translated `CompoundInterval.relative_interval_to_parent_location`, which is CUT before
+    `CompoundInterval._from_single_intervals_no_validation(new_blocks).optimize_blocks()`:
+    `single` = the zero-length request's `SingleInterval(...)`; `blocks` = (`new_blocks`, `new_strand`) at the cut. -/
+inductive RelOut where
+  | single (s : SI)
+  | blocks (bs : List SI) (strand : Strand)
+  deriving DecidableEq, Repr
+
 end BioCantor.GenP
